@@ -149,16 +149,37 @@ BigTypes ==
     TOf("SEQOF", TBool, NoSz), TOf("SEQOF", TIntR(B(0), B(255), FALSE), NoSz), TOcts(Sz(0, 65535, FALSE)),
     TOcts(Sz(0, 65536, FALSE)), TStr("Visible", Sz(0, 65536, FALSE), NoAl), TStr("BMP", NoSz, NoAl),
     TOcts(Sz(70000, 70000, FALSE)), TBits(Sz(0, 70000, FALSE), <<>>), TOf("SETOF", TNull, NoSz)>>
+\* lengths between the fragmentation boundaries: long runs of sub-octet fields followed by
+\* an octet-aligned field / inside an open type (buffer and alignment book-keeping)
+MidLens == IF Rich THEN <<1022, 1363, 1500, 2047, 2048, 4095, 4096, 4097, 5461, 8191, 8192, 12000>>
+           ELSE <<1022, 1363, 4096, 5461>>
+SubOctetCarriers ==
+  <<TOf("SEQOF", TIntR(B(0), B(7), FALSE), NoSz), TOf("SEQOF", TBool, Sz(0, 20000, FALSE)), TStr("Numeric", NoSz, NoAl),
+    TBits(NoSz, <<>>), TOf("SEQOF", TEnum(<<It("a", 0), It("b", 1), It("c", 2)>>, FALSE, <<>>), Sz(0, 20000, FALSE)),
+    TStr("IA5", Sz(0, 20000, FALSE), Al(<<65, 66, 67>>))>>
+BigWrapped ==
+  Concat([i \in 1..Len(SubOctetCarriers) |->
+     <<TSeq("SEQ", <<Mand("x", SubOctetCarriers[i]), Mand("post", TOcts(NoSz))>>, FALSE, <<>>),
+       TSeq("SEQ", <<Mand("pre", TBool)>>, TRUE, <<Add1(Mand("x", SubOctetCarriers[i])), Add1(Opt("y", TIntN))>>)>>])
+
+BigOne(t, n) ==
+  CASE t.k = "OCTS" -> [j \in 1..n |-> (j * 7) % 256]
+    [] t.k = "BITS" -> [n |-> n, b |-> BitsToBytes([j \in 1..n |-> (j \div 3) % 2])]
+    [] t.k = "STR" -> [j \in 1..n |-> IF t.st = "Numeric" THEN 48 + (j % 10) ELSE 65 + (j % 3)]
+    [] t.e.k = "BOOL" -> [j \in 1..n |-> (j % 3) = 0]
+    [] t.e.k = "NULL" -> [j \in 1..n |-> "NULL"]
+    [] t.e.k = "ENUM" -> [j \in 1..n |-> IF j % 2 = 0 THEN "a" ELSE "c"]
+    [] OTHER -> [j \in 1..n |-> B(j % (IF t.e.con.f = "R" /\ Eq(t.e.con.ub, B(7)) THEN 8 ELSE 256))]
+
 BigValues(t) ==
-  LET ok(n) == t.sz.f = "N" \/ (n >= t.sz.lb /\ (t.sz.ubinf \/ n <= t.sz.ub))
-      lens == SelectSeq(BigLens, ok)
-      one(n) == CASE t.k = "OCTS" -> [j \in 1..n |-> (j * 7) % 256]
-                  [] t.k = "BITS" -> [n |-> n, b |-> BitsToBytes([j \in 1..n |-> (j \div 3) % 2])]
-                  [] t.k = "STR" -> [j \in 1..n |-> IF t.st = "Numeric" THEN 48 + (j % 10) ELSE 65 + (j % 26)]
-                  [] t.e.k = "BOOL" -> [j \in 1..n |-> (j % 3) = 0]
-                  [] t.e.k = "NULL" -> [j \in 1..n |-> "NULL"]
-                  [] OTHER -> [j \in 1..n |-> B(j % 256)]
-  IN [i \in 1..Len(lens) |-> one(lens[i])]
+  IF t.k = "SEQ"
+  THEN LET inner == IF t.ext THEN t.adds[1].m.t ELSE t.root[1].t
+       IN [i \in 1..Len(MidLens) |->
+             IF t.ext THEN [pre |-> Present(TRUE), x |-> Present(BigOne(inner, MidLens[i])), y |-> Present(B(5))]
+             ELSE [x |-> Present(BigOne(inner, MidLens[i])), post |-> Present(<<1, 2, 3>>)]]
+  ELSE LET ok(n) == t.sz.f = "N" \/ (n >= t.sz.lb /\ (t.sz.ubinf \/ n <= t.sz.ub))
+           lens == SelectSeq(BigLens, ok)
+       IN [i \in 1..Len(lens) |-> BigOne(t, lens[i])]
 
 \* a few representatives that are wrapped at depth >= 1 when ~Rich
 Carriers ==
@@ -350,6 +371,7 @@ Init ==
   /\ \E td \in TagDefs : gEnv = [tagdef |-> td, extimp |-> FALSE, types |-> [x \in {} |-> 0]]
   /\ \/ \E i \in 1..Len(PrimTypes) : gT = PrimTypes[i] /\ gDepth = 0
      \/ Big /\ \E i \in 1..Len(BigTypes) : gT = BigTypes[i] /\ gDepth = BigMark
+     \/ Big /\ \E i \in 1..Len(BigWrapped) : gT = BigWrapped[i] /\ gDepth = BigMark
 
 IsCarrier(t) == \E i \in 1..Len(Carriers) : Carriers[i] = t
 
